@@ -50,6 +50,8 @@ DVs = z3.ArraySort(I, KV)
 DPs = z3.ArraySort(I, KP)
 LSs = z3.ArraySort(I, SeqV)
 
+_HEAPISH = (KV, DVs, SeqV, LSs)
+
 # reference kinds
 T_DICT, T_LIST, T_TUPLE, T_SET, T_OBJ, T_EXC = 1, 2, 3, 4, 5, 6
 ty = z3.Function("ty", I, I)                 # kind of a reference
@@ -87,9 +89,16 @@ def is_false(t):
 _fresh_n = [0]
 
 
+CUR_NEXT_REF = [1]       # the executor's allocation frontier (refs >= this are not allocated yet)
+ARRAY_BOUND = {}         # name of a base heap array / content constant -> allocation frontier when it was created
+
+
 def fresh(prefix, sort):
     _fresh_n[0] += 1
-    return z3.Const("%s!%d" % (prefix, _fresh_n[0]), sort)
+    name = "%s!%d" % (prefix, _fresh_n[0])
+    if sort in _HEAPISH:
+        ARRAY_BOUND[name] = CUR_NEXT_REF[0]
+    return z3.Const(name, sort)
 
 
 def next_id():
@@ -110,6 +119,8 @@ class Heap(object):
 
     @staticmethod
     def symbolic(tag):
+        ARRAY_BOUND["DV_" + tag] = 1
+        ARRAY_BOUND["LS_" + tag] = 1
         return Heap(z3.Const("DV_" + tag, DVs), z3.Const("DP_" + tag, DPs),
                     z3.Const("LS_" + tag, LSs))
 
